@@ -121,6 +121,34 @@ def fileName (m : Mode) (b : Bucket) (ext : List Char) (run : Nat) : List Char :
 /-- extensions are made of letters and digits -/
 def ExtOk (ext : List Char) : Prop := ∀ c ∈ ext, c ≠ '.' ∧ c ≠ '_'
 
+/-! ## automatic numbering (`apply_run_number` without a run number; used by the deprecated
+`pyxel.exposure_mode`, one save per readout): the number of every existing `<name>_*.<ext>` file is
+extracted (`get_number`, 0 when there is none), the numbers are sorted, and the next file gets the largest + 1
+(1 in an empty folder). -/
+
+def maxOf (l : List Nat) : Nat := l.foldl max 0
+
+def nextNumber (existing : List Nat) : Nat := if existing.isEmpty then 1 else maxOf existing + 1
+
+/-- the numbers given to `n` consecutive automatic saves of one template into a folder -/
+def autoSaves : List Nat → Nat → List Nat
+  | _, 0 => []
+  | ex, n + 1 => nextNumber ex :: autoSaves (nextNumber ex :: ex) n
+
+/-- lexicographic order on rendered names (what sorting the *file names* as text does) -/
+def lexLt : List Char → List Char → Bool
+  | [], [] => false
+  | [], _ :: _ => true
+  | _ :: _, [] => false
+  | a :: as, b :: bs => if a.toNat < b.toNat then true else if a.toNat > b.toNat then false else lexLt as bs
+
+/-- a wrong variant (seeded defect C19-8): the file *names* are sorted as text and the number of the last
+one is continued -/
+def nextNumberTextSorted (existing : List Nat) : Nat :=
+  match existing with
+  | [] => 1
+  | x :: xs => (xs.foldl (fun best y => if lexLt (Nat.repr best).toList (Nat.repr y).toList then y else best) x) + 1
+
 /-! ## writers -/
 
 inductive Writer | skip | excl | over
